@@ -620,6 +620,18 @@ def _check_pm(ctx, idx, reqs, pending):
                                               'got': np.asarray(v, dtype=np.float64).reshape(-1)[:8].tolist(),
                                               'want': want_b.reshape(-1)[:8].tolist()}, fs, mapping='/'.join(sorted({desc[f % M][0]['kind'] for f in fs})),
                         single_lut=any(_is_single(desc[f % M][0]) for f in fs))
+        # several channels: every position carries several frames -> no volume (refused; the model refuses as well)
+        if cs == 'PATIENT' and M >= 2 and not lazy and d['ts'] in NATIVE and not is_float:
+            s6m, volm = _try(im.get_volume, dtype=np.float64, apply_real_world_transform=False, apply_modality_transform=False,
+                             apply_voi_transform=False, apply_presentation_lut=False, allow_missing_positions=True)
+            ctx.case(kind='pm', path=f'{tag}/get_volume-channels', outcome='refused' if s6m != 'ok' else 'volume')
+            if s6m == 'ok':
+                obs(f'{tag}/get_volume-channels', False, 'a map with several frames per position was assembled into one volume', None)
+            sh0 = pm.SharedFunctionalGroupsSequence[0]
+            if 'PlaneOrientationSequence' in sh0:
+                queries.append({'q': 'volume', 'f': 0, 'cached': True, 'allow_missing': True, 'hint': None,
+                                'ori': [_rat(float(v)) for v in sh0.PlaneOrientationSequence[0].ImageOrientationPatient]})
+                impl['answers'].append('err' if s6m != 'ok' else 'values')
         # volume (one mapping per position, distinct positions along one direction)
         if cs == 'PATIENT' and M == 1 and N >= 2 and not (d['explicit_pos'] and len({p[:2] for p in pos}) > 1):
             s6, vol = _try(im.get_volume, dtype=np.float64, apply_real_world_transform=False, apply_modality_transform=False,
@@ -677,6 +689,17 @@ def _check_pm(ctx, idx, reqs, pending):
                             s10, vol2 = _try(im.get_volume, dtype=np.float64, apply_real_world_transform=True,
                                              real_world_value_map_selector=selector, allow_missing_positions=True)
                             skind = type(selector).__name__ + ('-' if isinstance(selector, int) and selector < 0 else '')
+                            # model (L0): `getVolumeReal` -- every slice under the mapping selected from ITS frame's mappings
+                            if not lazy and d['ts'] in NATIVE:
+                                sh0 = pm.SharedFunctionalGroupsSequence[0]
+                                sbs_ = sh0.PixelMeasuresSequence[0].get('SpacingBetweenSlices') if 'PixelMeasuresSequence' in sh0 else None
+                                queries.append({'q': 'volume', 'f': 0, 'cached': True, 'allow_missing': True, 'sel': _sel_json(selector),
+                                                'hint': None if sbs_ is None else _rat(float(sbs_)),
+                                                'ori': [_rat(float(v)) for v in sh0.PlaneOrientationSequence[0].ImageOrientationPatient]})
+                                impl['answers'].append('err' if s10 != 'ok' else
+                                                       {'volume': [[_rat(float(t)) for t in sl.reshape(-1)] for sl in np.asarray(vol2.array)],
+                                                        'blank': '0'})
+                                ctx.hist('volume_model', 'real-world/' + ('ok' if s10 == 'ok' else 'refused'))
                             if any(e is None for e in exps):
                                 ctx.case(kind='pm', path=f'{tag}/rwvm-volume-outside', outcome='refused' if s10 != 'ok' else 'values')
                                 if s10 == 'ok':
@@ -1200,7 +1223,7 @@ def _compare_pm(ctx, case, impl, ans):
             ms = ma['ok'].get('slices') if isinstance(ma.get('ok'), dict) else None
             want_v = ia['volume']
             ok_v = isinstance(ms, list) and len(ms) == len(want_v) and all(
-                (m_ == w_) if m_ is not None else not any(w_) for m_, w_ in zip(ms, want_v))
+                (m_ == w_) if m_ is not None else all(t in (0, '0') for t in w_) for m_, w_ in zip(ms, want_v))
             if not ok_v:
                 ctx.disagree('L0', dict(case, query=q), [w_[:6] for w_ in want_v[:4]], [m_[:6] if m_ else m_ for m_ in (ms or [])[:4]],
                              'get_volume: slices of the volume')
